@@ -436,4 +436,587 @@ theorem iterRec_refines (data : List α) :
     rw [List.length_drop] at h
     exact h
 
+
+/-! ## Sequential pipelines -/
+
+section pipe
+variable {β T X S Res ρ : Type}
+
+/-- the chain neither invents nor drops rows: what goes in comes out or stays in the buffer -/
+structure Conserves (tr : Trans α β T) (V : RowView α β T ρ) : Prop where
+  init : V.bufRows tr.init = []
+  step : ∀ t a, (tr.step t a).2.flatMap V.rows ++ V.bufRows (tr.step t a).1 = V.bufRows t ++ V.srcRows a
+  finish : ∀ t, (tr.finish t).flatMap V.rows = V.bufRows t
+
+variable {R : Recoverable α} {Inv : R.It → Prop} {rem : R.It → List α}
+
+def PipeIt.PInv (Inv : R.It → Prop) (rem : R.It → List α) (p : PipeIt R β T S) : Prop :=
+  Inv p.src ∧ (p.done = true → rem p.src = [])
+
+/-- all rows the pipeline will still deliver if it is never interrupted -/
+def PipeIt.futRows (rem : R.It → List α) (V : RowView α β T ρ) (p : PipeIt R β T S) : List ρ :=
+  PipeIt.heldRows V p ++ (rem p.src).flatMap V.srcRows
+
+theorem PipeIt.nextAux_spec (h : Refines R Inv rem) (P : PipeDef α β T X S Res)
+    (V : RowView α β T ρ) (hc : Conserves P.tr V) : ∀ (fuel : Nat) (p : PipeIt R β T S),
+    PipeIt.PInv Inv rem p →
+    (p.pending = [] → p.done = false → (rem p.src).length + 1 ≤ fuel) →
+    PipeIt.PInv Inv rem (PipeIt.nextAux R P fuel p).2 ∧
+    match (PipeIt.nextAux R P fuel p).1 with
+    | some b => V.rows b ++ PipeIt.futRows rem V (PipeIt.nextAux R P fuel p).2 = PipeIt.futRows rem V p ∧
+        (PipeIt.nextAux R P fuel p).2.agg = P.m.add p.agg (P.batchOf b)
+    | none => PipeIt.futRows rem V p = [] ∧ PipeIt.futRows rem V (PipeIt.nextAux R P fuel p).2 = [] ∧
+        (PipeIt.nextAux R P fuel p).2.agg = p.agg := by
+  intro fuel
+  induction fuel with
+  | zero =>
+    intro p hp hf
+    cases hpend : p.pending with
+    | cons b rest =>
+      simp only [PipeIt.nextAux, hpend]
+      refine ⟨hp, ?_, trivial⟩
+      simp [PipeIt.futRows, PipeIt.heldRows, hpend, List.append_assoc]
+    | nil =>
+      simp only [PipeIt.nextAux, hpend]
+      have hd : p.done = true := by
+        cases hdd : p.done with
+        | true => rfl
+        | false => have := hf hpend hdd; omega
+      have : PipeIt.futRows rem V p = [] := by
+        simp [PipeIt.futRows, PipeIt.heldRows, hpend, hd, hp.2 hd]
+      exact ⟨hp, this, this, trivial⟩
+  | succ fuel ih =>
+    intro p hp hf
+    cases hpend : p.pending with
+    | cons b rest =>
+      simp only [PipeIt.nextAux, hpend]
+      refine ⟨hp, ?_, trivial⟩
+      simp [PipeIt.futRows, PipeIt.heldRows, hpend, List.append_assoc]
+    | nil =>
+      cases hd : p.done with
+      | true =>
+        simp only [PipeIt.nextAux, hpend, hd, if_true]
+        have : PipeIt.futRows rem V p = [] := by
+          simp [PipeIt.futRows, PipeIt.heldRows, hpend, hd, hp.2 hd]
+        exact ⟨hp, this, this, trivial⟩
+      | false =>
+        have hfuel := hf hpend hd
+        cases hr : rem p.src with
+        | nil =>
+          obtain ⟨h1, h2, h3⟩ := h.next_nil p.src hp.1 hr
+          have hn : R.next p.src = (none, (R.next p.src).2) := by rw [← h1]
+          have e : PipeIt.nextAux R P (fuel + 1) p =
+              PipeIt.nextAux R P fuel { p with src := (R.next p.src).2, pending := P.tr.finish p.t, done := true } := by
+            rw [PipeIt.nextAux]
+            simp only [hpend, hd]
+            rw [hn]
+            rfl
+          rw [e]
+          have hp1 : PipeIt.PInv Inv rem ({ p with src := (R.next p.src).2, pending := P.tr.finish p.t, done := true } : PipeIt R β T S) :=
+            ⟨h2, fun _ => h3⟩
+          have hfut : PipeIt.futRows rem V ({ p with src := (R.next p.src).2, pending := P.tr.finish p.t, done := true } : PipeIt R β T S) =
+              PipeIt.futRows rem V p := by
+            simp [PipeIt.futRows, PipeIt.heldRows, hpend, hd, h3, hr, hc.finish]
+          have := ih _ hp1 (fun _ hdd => by simp at hdd)
+          rw [hfut] at this
+          exact this
+        | cons a as =>
+          obtain ⟨h1, h2, h3⟩ := h.next_cons p.src a as hp.1 hr
+          have hn : R.next p.src = (some a, (R.next p.src).2) := by rw [← h1]
+          have e : PipeIt.nextAux R P (fuel + 1) p =
+              PipeIt.nextAux R P fuel { p with src := (R.next p.src).2, t := (P.tr.step p.t a).1, pending := (P.tr.step p.t a).2 } := by
+            rw [PipeIt.nextAux]
+            simp only [hpend, hd]
+            rw [hn]
+            rfl
+          rw [e]
+          have hp1 : PipeIt.PInv Inv rem ({ p with src := (R.next p.src).2, t := (P.tr.step p.t a).1, pending := (P.tr.step p.t a).2 } : PipeIt R β T S) :=
+            ⟨h2, fun hdd => by simp [hd] at hdd⟩
+          have hfut : PipeIt.futRows rem V ({ p with src := (R.next p.src).2, t := (P.tr.step p.t a).1, pending := (P.tr.step p.t a).2 } : PipeIt R β T S) =
+              PipeIt.futRows rem V p := by
+            simp only [PipeIt.futRows, PipeIt.heldRows, hpend, hd, h3, hr, List.flatMap_cons, List.flatMap_nil,
+              List.nil_append, Bool.false_eq_true, if_false]
+            rw [← List.append_assoc, hc.step, List.append_assoc]
+          have := ih _ hp1 (fun _ _ => by
+            show (rem (R.next p.src).2).length + 1 ≤ fuel
+            rw [h3]; rw [hr] at hfuel; simp only [List.length_cons] at hfuel; omega)
+          rw [hfut] at this
+          exact this
+
+theorem PipeIt.next_spec (h : Refines R Inv rem) (P : PipeDef α β T X S Res)
+    (V : RowView α β T ρ) (hc : Conserves P.tr V) (p : PipeIt R β T S)
+    (hp : PipeIt.PInv Inv rem p) :
+    PipeIt.PInv Inv rem (PipeIt.next R P p).2 ∧
+    match (PipeIt.next R P p).1 with
+    | some b => V.rows b ++ PipeIt.futRows rem V (PipeIt.next R P p).2 = PipeIt.futRows rem V p ∧
+        (PipeIt.next R P p).2.agg = P.m.add p.agg (P.batchOf b)
+    | none => PipeIt.futRows rem V p = [] ∧ PipeIt.futRows rem V (PipeIt.next R P p).2 = [] ∧
+        (PipeIt.next R P p).2.agg = p.agg :=
+  PipeIt.nextAux_spec h P V hc _ p hp (fun _ _ => by have := h.size_ok p.src hp.1; omega)
+
+/-- `agg_state` after feeding the outputs `bs` one by one -/
+def aggOf (P : PipeDef α β T X S Res) (bs : List β) (s : S) : S := (bs.map P.batchOf).foldl P.m.add s
+
+theorem pipeTakeN_spec (h : Refines R Inv rem) (P : PipeDef α β T X S Res)
+    (V : RowView α β T ρ) (hc : Conserves P.tr V) : ∀ (k : Nat) (p : PipeIt R β T S),
+    PipeIt.PInv Inv rem p →
+    PipeIt.PInv Inv rem (pipeTakeN R P k p).2 ∧
+    (pipeTakeN R P k p).1.flatMap V.rows ++ PipeIt.futRows rem V (pipeTakeN R P k p).2 =
+      PipeIt.futRows rem V p ∧
+    (pipeTakeN R P k p).2.agg = aggOf P (pipeTakeN R P k p).1 p.agg ∧
+    ((pipeTakeN R P k p).1.length < k → PipeIt.futRows rem V (pipeTakeN R P k p).2 = []) := by
+  intro k
+  induction k with
+  | zero => intro p hp; simp [pipeTakeN, hp, aggOf]
+  | succ k ih =>
+    intro p hp
+    have hs := PipeIt.next_spec h P V hc p hp
+    cases hn : (PipeIt.next R P p).1 with
+    | none =>
+      have e : PipeIt.next R P p = (none, (PipeIt.next R P p).2) := by rw [← hn]
+      rw [hn] at hs
+      have e2 : pipeTakeN R P (k + 1) p = ([], (PipeIt.next R P p).2) := by
+        rw [pipeTakeN, e]
+      rw [e2]
+      obtain ⟨h1, h2, h3, h4⟩ := hs
+      refine ⟨h1, ?_, ?_, fun _ => h3⟩
+      · simp [h2, h3]
+      · simp [aggOf, h4]
+    | some b =>
+      have e : PipeIt.next R P p = (some b, (PipeIt.next R P p).2) := by rw [← hn]
+      rw [hn] at hs
+      have e2 : pipeTakeN R P (k + 1) p =
+          (b :: (pipeTakeN R P k (PipeIt.next R P p).2).1, (pipeTakeN R P k (PipeIt.next R P p).2).2) := by
+        rw [pipeTakeN, e]
+      rw [e2]
+      obtain ⟨h1, h2, h3⟩ := hs
+      obtain ⟨i1, i2, i3, i4⟩ := ih _ h1
+      refine ⟨i1, ?_, ?_, ?_⟩
+      · simp only [List.flatMap_cons, List.append_assoc]
+        rw [i2, h2]
+      · rw [i3, h3]; simp [aggOf]
+      · intro hl
+        apply i4
+        simp only [List.length_cons] at hl
+        omega
+
+/-! ### events -/
+
+theorem Ev.allRows_append (V : RowView α β T ρ) (xs ys : List (Ev β ρ)) :
+    Ev.allRows V (xs ++ ys) = Ev.allRows V xs ++ Ev.allRows V ys := by
+  induction xs with
+  | nil => rfl
+  | cons e es ih => cases e <;> simp [Ev.allRows, ih, List.append_assoc]
+
+theorem Ev.allRows_dlv (V : RowView α β T ρ) (bs : List β) :
+    Ev.allRows V (bs.map (Ev.dlv (ρ := ρ))) = bs.flatMap V.rows := by
+  induction bs with
+  | nil => rfl
+  | cons b bs ih => simp [Ev.allRows, ih]
+
+theorem Ev.delivered_append (xs ys : List (Ev β ρ)) :
+    Ev.delivered (xs ++ ys) = Ev.delivered xs ++ Ev.delivered ys := by
+  induction xs with
+  | nil => rfl
+  | cons e es ih => cases e <;> simp [Ev.delivered, ih]
+
+theorem Ev.delivered_dlv (bs : List β) : Ev.delivered (bs.map (Ev.dlv (ρ := ρ))) = bs := by
+  induction bs with
+  | nil => rfl
+  | cons b bs ih => simp [Ev.delivered, ih]
+
+theorem Ev.lostRows_append (xs ys : List (Ev β ρ)) :
+    Ev.lostRows (xs ++ ys) = Ev.lostRows xs ++ Ev.lostRows ys := by
+  induction xs with
+  | nil => rfl
+  | cons e es ih => cases e <;> simp [Ev.lostRows, ih, List.append_assoc]
+
+theorem Ev.lostRows_dlv (bs : List β) : Ev.lostRows (bs.map (Ev.dlv (ρ := ρ))) = [] := by
+  induction bs with
+  | nil => rfl
+  | cons b bs ih => simp [Ev.lostRows, ih]
+
+/-- the event appended by a restore -/
+def lostEv (held : List ρ) : List (Ev β ρ) := if held.isEmpty then [] else [Ev.lost held]
+
+theorem allRows_lostEv (V : RowView α β T ρ) (held : List ρ) :
+    Ev.allRows V (lostEv (β := β) held) = held := by
+  unfold lostEv
+  cases held with
+  | nil => rfl
+  | cons x xs => simp [Ev.allRows]
+
+theorem delivered_lostEv (held : List ρ) : Ev.delivered (lostEv (β := β) held) = [] := by
+  unfold lostEv
+  cases held <;> simp [Ev.delivered]
+
+theorem lostRows_lostEv (held : List ρ) : Ev.lostRows (lostEv (β := β) held) = held := by
+  unfold lostEv
+  cases held <;> simp [Ev.lostRows]
+
+/-! ### histories of a pipeline -/
+
+/-- invariant of a pipeline under a history; `E` = all rows of the uninterrupted run -/
+structure PipeRun.Good (h : Refines R Inv rem) (P : PipeDef α β T X S Res) (V : RowView α β T ρ)
+    (E : List ρ) (r : PipeRun R β T S ρ) : Prop where
+  inv : PipeIt.PInv Inv rem r.p
+  cur : Ev.allRows V r.trace ++ PipeIt.futRows rem V r.p = E
+  agg : r.p.agg = aggOf P (Ev.delivered r.trace) P.m.empty
+  saved : ∃ ps : PipeIt R β T S, r.saved = PipeIt.state R ps ∧ PipeIt.PInv Inv rem ps ∧
+    r.savedHeld = PipeIt.heldRows V ps ∧
+    Ev.allRows V r.savedTrace ++ PipeIt.futRows rem V ps = E ∧
+    ps.agg = aggOf P (Ev.delivered r.savedTrace) P.m.empty
+
+theorem PipeRun.Good.step (h : Refines R Inv rem) (P : PipeDef α β T X S Res)
+    (V : RowView α β T ρ) (hc : Conserves P.tr V) {E : List ρ} {r : PipeRun R β T S ρ}
+    (g : PipeRun.Good h P V E r) (op : Op) :
+    ∃ r', PipeRun.step R P V r op = .ok r' ∧ PipeRun.Good h P V E r' := by
+  cases op with
+  | take k =>
+    obtain ⟨t1, t2, t3, _⟩ := pipeTakeN_spec h P V hc k r.p g.inv
+    refine ⟨_, rfl, ⟨t1, ?_, ?_, g.saved⟩⟩
+    · show Ev.allRows V (r.trace ++ (pipeTakeN R P k r.p).1.map Ev.dlv) ++ _ = E
+      rw [Ev.allRows_append, Ev.allRows_dlv, List.append_assoc, t2]
+      exact g.cur
+    · show (pipeTakeN R P k r.p).2.agg = aggOf P (Ev.delivered (r.trace ++ (pipeTakeN R P k r.p).1.map Ev.dlv)) _
+      rw [t3, g.agg, Ev.delivered_append, Ev.delivered_dlv]
+      simp [aggOf, List.foldl_append]
+  | ckpt =>
+    exact ⟨_, rfl, ⟨g.inv, g.cur, g.agg, ⟨r.p, rfl, g.inv, rfl, g.cur, g.agg⟩⟩⟩
+  | restore =>
+    obtain ⟨ps, hs, hi, hh, he, ha⟩ := g.saved
+    obtain ⟨src', h1, h2, h3⟩ := h.restore_state ps.src hi.1
+    refine ⟨{ r with p := PipeIt.fresh R P src' ps.agg, trace := r.savedTrace ++ lostEv r.savedHeld }, ?_,
+      ⟨⟨h2, fun hd => by simp [PipeIt.fresh] at hd⟩, ?_, ?_, ⟨ps, hs, hi, hh, he, ha⟩⟩⟩
+    · simp only [PipeRun.step, hs, PipeIt.restore, PipeIt.state, h1, bind, Except.bind, pure, Except.pure]
+      rfl
+    · show Ev.allRows V (r.savedTrace ++ lostEv r.savedHeld) ++ PipeIt.futRows rem V (PipeIt.fresh R P src' ps.agg) = E
+      rw [Ev.allRows_append, allRows_lostEv, hh, ← he]
+      simp [PipeIt.futRows, PipeIt.fresh, PipeIt.heldRows, hc.init, h3, List.append_assoc]
+    · show ps.agg = aggOf P (Ev.delivered (r.savedTrace ++ lostEv r.savedHeld)) _
+      rw [Ev.delivered_append, delivered_lostEv, List.append_nil]
+      exact ha
+
+theorem PipeRun.Good.run (h : Refines R Inv rem) (P : PipeDef α β T X S Res)
+    (V : RowView α β T ρ) (hc : Conserves P.tr V) {E : List ρ} (ops : List Op) :
+    ∀ {r : PipeRun R β T S ρ}, PipeRun.Good h P V E r →
+      ∃ r', PipeRun.run R P V r ops = .ok r' ∧ PipeRun.Good h P V E r' := by
+  induction ops with
+  | nil => intro r g; exact ⟨r, rfl, g⟩
+  | cons op ops ih =>
+    intro r g
+    obtain ⟨r1, h1, g1⟩ := g.step h P V hc op
+    obtain ⟨r2, h2, g2⟩ := ih g1
+    refine ⟨r2, ?_, g2⟩
+    simp only [PipeRun.run, List.foldlM_cons, h1] at h2 ⊢
+    exact h2
+
+theorem PipeRun.Good.init (h : Refines R Inv rem) (P : PipeDef α β T X S Res)
+    (V : RowView α β T ρ) (hc : Conserves P.tr V) (it : R.It) (hi : Inv it) :
+    PipeRun.Good h P V ((rem it).flatMap V.srcRows) (PipeRun.init R P it) := by
+  have hp : PipeIt.PInv Inv rem (PipeIt.fresh R P it P.m.empty) :=
+    ⟨hi, fun hd => by simp [PipeIt.fresh] at hd⟩
+  have hf : PipeIt.futRows rem V (PipeIt.fresh R P it P.m.empty) = (rem it).flatMap V.srcRows := by
+    simp [PipeIt.futRows, PipeIt.fresh, PipeIt.heldRows, hc.init]
+  exact ⟨hp, by simpa [PipeRun.init, Ev.allRows] using hf, by simp [PipeRun.init, PipeIt.fresh, aggOf, Ev.delivered],
+    ⟨PipeIt.fresh R P it P.m.empty, rfl, hp, by simp [PipeRun.init, PipeIt.heldRows, PipeIt.fresh, hc.init],
+      by simpa [PipeRun.init, Ev.allRows] using hf, by simp [PipeIt.fresh, PipeRun.init, aggOf, Ev.delivered]⟩⟩
+
+/-! ### row-wise chains lose nothing -/
+
+/-- at most one output per source element, nothing at exhaustion -/
+structure RowWise1 (tr : Trans α β T) : Prop where
+  step_le : ∀ t a, (tr.step t a).2.length ≤ 1
+  finish_nil : ∀ t, tr.finish t = []
+
+theorem PipeIt.nextAux_pending (P : PipeDef α β T X S Res) (hw : RowWise1 P.tr) :
+    ∀ (fuel : Nat) (p : PipeIt R β T S), p.pending.length ≤ 1 →
+      (PipeIt.nextAux R P fuel p).2.pending = [] := by
+  intro fuel
+  induction fuel with
+  | zero =>
+    intro p hl
+    cases hpend : p.pending with
+    | nil => simp [PipeIt.nextAux, hpend]
+    | cons b rest =>
+      rw [hpend] at hl
+      have : rest = [] := List.eq_nil_of_length_eq_zero (by simp only [List.length_cons] at hl; omega)
+      simp [PipeIt.nextAux, hpend, this]
+  | succ fuel ih =>
+    intro p hl
+    cases hpend : p.pending with
+    | cons b rest =>
+      rw [hpend] at hl
+      have : rest = [] := List.eq_nil_of_length_eq_zero (by simp only [List.length_cons] at hl; omega)
+      simp [PipeIt.nextAux, hpend, this]
+    | nil =>
+      cases hd : p.done with
+      | true => simp [PipeIt.nextAux, hpend, hd]
+      | false =>
+        rw [PipeIt.nextAux]
+        simp only [hpend, hd]
+        cases hn : (R.next p.src).1 with
+        | none =>
+          have e : R.next p.src = (none, (R.next p.src).2) := by rw [← hn]
+          rw [e]
+          exact ih _ (by simp [hw.finish_nil])
+        | some a =>
+          have e : R.next p.src = (some a, (R.next p.src).2) := by rw [← hn]
+          rw [e]
+          exact ih _ (hw.step_le p.t a)
+
+theorem pipeTakeN_pending (P : PipeDef α β T X S Res) (hw : RowWise1 P.tr) :
+    ∀ (k : Nat) (p : PipeIt R β T S), p.pending = [] → (pipeTakeN R P k p).2.pending = [] := by
+  intro k
+  induction k with
+  | zero => intro p hp; simpa [pipeTakeN] using hp
+  | succ k ih =>
+    intro p hp
+    have hq : (PipeIt.next R P p).2.pending = [] :=
+      PipeIt.nextAux_pending P hw _ p (by simp [hp])
+    cases hn : (PipeIt.next R P p).1 with
+    | none =>
+      have e : PipeIt.next R P p = (none, (PipeIt.next R P p).2) := by rw [← hn]
+      rw [pipeTakeN, e]; exact hq
+    | some b =>
+      have e : PipeIt.next R P p = (some b, (PipeIt.next R P p).2) := by rw [← hn]
+      rw [pipeTakeN, e]; exact ih _ hq
+
+/-- no `lost` event in a trace -/
+def Ev.NoLoss (tr : List (Ev β ρ)) : Prop := tr = (Ev.delivered tr).map Ev.dlv
+
+structure PipeRun.Clean (r : PipeRun R β T S ρ) : Prop where
+  pending : r.p.pending = []
+  held : r.savedHeld = []
+  trace : Ev.NoLoss r.trace
+  savedTrace : Ev.NoLoss r.savedTrace
+
+theorem PipeRun.Clean.step (P : PipeDef α β T X S Res) (V : RowView α β T ρ)
+    (hw : RowWise1 P.tr) (hb : ∀ t, V.bufRows t = []) {r r' : PipeRun R β T S ρ}
+    (c : PipeRun.Clean r) (op : Op) (hs : PipeRun.step R P V r op = .ok r') : PipeRun.Clean r' := by
+  cases op with
+  | take k =>
+    simp only [PipeRun.step] at hs
+    injection hs with hs
+    subst hs
+    refine ⟨pipeTakeN_pending P hw k r.p c.pending, c.held, ?_, c.savedTrace⟩
+    show r.trace ++ (pipeTakeN R P k r.p).1.map Ev.dlv = _
+    rw [Ev.delivered_append, Ev.delivered_dlv, List.map_append, ← c.trace]
+  | ckpt =>
+    simp only [PipeRun.step] at hs
+    injection hs with hs
+    subst hs
+    refine ⟨c.pending, ?_, c.trace, c.trace⟩
+    show PipeIt.heldRows V r.p = []
+    simp [PipeIt.heldRows, c.pending, hb]
+  | restore =>
+    simp only [PipeRun.step] at hs
+    cases hr : PipeIt.restore R P r.saved with
+    | error e => simp [hr, bind, Except.bind] at hs
+    | ok p' =>
+      simp only [hr, bind, Except.bind] at hs
+      injection hs with hs
+      subst hs
+      have hp : p'.pending = [] := by
+        unfold PipeIt.restore at hr
+        cases hq : R.restore r.saved.1 with
+        | error e => simp [hq, bind, Except.bind] at hr
+        | ok src =>
+          simp only [hq, bind, Except.bind, pure, Except.pure] at hr
+          injection hr with hr
+          subst hr
+          rfl
+      refine ⟨hp, c.held, ?_, c.savedTrace⟩
+      show r.savedTrace ++ (if r.savedHeld.isEmpty then [] else [Ev.lost r.savedHeld]) = _
+      simp only [c.held, List.isEmpty_nil, if_true, List.append_nil]
+      exact c.savedTrace
+
+theorem PipeRun.Clean.run (P : PipeDef α β T X S Res) (V : RowView α β T ρ)
+    (hw : RowWise1 P.tr) (hb : ∀ t, V.bufRows t = []) (ops : List Op) :
+    ∀ {r r' : PipeRun R β T S ρ}, PipeRun.Clean r → PipeRun.run R P V r ops = .ok r' →
+      PipeRun.Clean r' := by
+  induction ops with
+  | nil =>
+    intro r r' c hs
+    simp only [PipeRun.run, List.foldlM_nil, pure, Except.pure] at hs
+    injection hs with hs
+    subst hs; exact c
+  | cons op ops ih =>
+    intro r r' c hs
+    simp only [PipeRun.run, List.foldlM_cons] at hs
+    cases h1 : PipeRun.step R P V r op with
+    | error e => simp [h1, bind, Except.bind] at hs
+    | ok r1 =>
+      simp only [h1, bind, Except.bind] at hs
+      exact ih (c.step P V hw hb op h1) hs
+
+theorem PipeRun.Clean.init (P : PipeDef α β T X S Res) (it : R.It) :
+    PipeRun.Clean (PipeRun.init (ρ := ρ) R P it) :=
+  ⟨rfl, rfl, rfl, rfl⟩
+
+end pipe
+
+/-! ## Threaded pipelines -/
+
+section par
+variable {β S : Type} {R : Recoverable α} {Inv : R.It → Prop} {rem : R.It → List α}
+
+/-- the outputs the producers have not produced yet -/
+def futOf (rem : R.It → List α) (f : α → List β) (cs : List R.It) : List β :=
+  cs.flatMap fun it => (rem it).flatMap f
+
+theorem futOf_split (f : α → List β) (cs : List R.It) (i : Nat) (it : R.It)
+    (hi : cs[i]? = some it) :
+    futOf rem f cs = futOf rem f (cs.take i) ++ ((rem it).flatMap f ++ futOf rem f (cs.drop (i + 1))) := by
+  obtain ⟨hlt, hit⟩ := List.getElem?_eq_some_iff.mp hi
+  have : cs = cs.take i ++ it :: cs.drop (i + 1) := by
+    rw [← hit, ← List.drop_eq_getElem_cons hlt, List.take_append_drop]
+  conv => lhs; rw [this]
+  simp [futOf, List.flatMap_append]
+
+theorem futOf_set (f : α → List β) (cs : List R.It) (i : Nat) (it it' : R.It)
+    (hi : cs[i]? = some it) :
+    futOf rem f (cs.set i it') =
+      futOf rem f (cs.take i) ++ ((rem it').flatMap f ++ futOf rem f (cs.drop (i + 1))) := by
+  obtain ⟨hlt, _⟩ := List.getElem?_eq_some_iff.mp hi
+  rw [List.set_eq_take_append_cons_drop, if_pos hlt]
+  simp [futOf, List.flatMap_append]
+
+theorem restoreAll_spec (h : Refines R Inv rem) (f : α → List β) : ∀ (cs : List R.It),
+    (∀ it ∈ cs, Inv it) →
+    ∃ cs', restoreAll R (cs.map R.state) = .ok cs' ∧ (∀ it ∈ cs', Inv it) ∧
+      futOf rem f cs' = futOf rem f cs := by
+  intro cs
+  induction cs with
+  | nil => intro _; exact ⟨[], rfl, by simp, rfl⟩
+  | cons c cs ih =>
+    intro hi
+    obtain ⟨c', h1, h2, h3⟩ := h.restore_state c (hi c (by simp))
+    obtain ⟨cs', i1, i2, i3⟩ := ih (fun it hm => hi it (by simp [hm]))
+    refine ⟨c' :: cs', ?_, ?_, ?_⟩
+    · simp [restoreAll, h1, i1, bind, Except.bind, pure, Except.pure]
+    · intro it hm
+      rcases List.mem_cons.mp hm with e | e
+      · rw [e]; exact h2
+      · exact i2 it e
+    · simp only [futOf, List.flatMap_cons] at i3 ⊢
+      rw [h3, i3]
+
+structure ParRun.Good (h : Refines R Inv rem) (f : α → List β) (add : S → β → S) (empty : S)
+    (E : List β) (r : ParRun R β S) : Prop where
+  inv : ∀ it ∈ r.s.cursors, Inv it
+  cur : List.Perm (r.delivered ++ r.lost ++ r.s.buf ++ futOf rem f r.s.cursors) E
+  agg : r.s.agg = r.delivered.foldl add empty
+  saved : ∃ cs : List R.It, r.saved.1 = cs.map R.state ∧ (∀ it ∈ cs, Inv it) ∧
+    List.Perm (r.savedDelivered ++ r.savedLost ++ r.savedBuf ++ futOf rem f cs) E ∧
+    r.saved.2 = r.savedDelivered.foldl add empty
+
+theorem perm_move (X A F G B : List β) :
+    List.Perm (X ++ F ++ (A ++ (G ++ B))) (X ++ (A ++ (F ++ G ++ B))) := by
+  rw [List.append_assoc]
+  apply List.Perm.append_left
+  rw [← List.append_assoc, ← List.append_assoc A, ← List.append_assoc A]
+  rw [List.append_assoc (A ++ F)]
+  exact List.Perm.append_right _ List.perm_append_comm
+
+theorem ParRun.Good.step (h : Refines R Inv rem) (f : α → List β) (add : S → β → S) (empty : S)
+    {E : List β} {r : ParRun R β S} (g : ParRun.Good h f add empty E r) (op : ParOp) :
+    ∃ r', ParRun.step R f add r op = .ok r' ∧ ParRun.Good h f add empty E r' := by
+  cases op with
+  | pull i =>
+    cases hc : r.s.cursors[i]? with
+    | none => exact ⟨r, by simp [ParRun.step, hc], g⟩
+    | some it =>
+      have hin : Inv it := g.inv it (List.mem_of_getElem? hc)
+      have hsplit := futOf_split (rem := rem) f r.s.cursors i it hc
+      cases hr : rem it with
+      | nil =>
+        obtain ⟨h1, h2, h3⟩ := h.next_nil it hin hr
+        have e : R.next it = (none, (R.next it).2) := by rw [← h1]
+        refine ⟨{ r with s := { r.s with cursors := r.s.cursors.set i (R.next it).2 } }, ?_, ⟨?_, ?_, g.agg, g.saved⟩⟩
+        · simp only [ParRun.step, hc]; rw [e]
+        · intro x hx
+          rcases List.mem_or_eq_of_mem_set hx with hx | hx
+          · exact g.inv x hx
+          · rw [hx]; exact h2
+        · show List.Perm (r.delivered ++ r.lost ++ r.s.buf ++ futOf rem f (r.s.cursors.set i (R.next it).2)) E
+          rw [futOf_set (rem := rem) f r.s.cursors i it _ hc, h3]
+          have hcur := g.cur
+          rw [hsplit, hr] at hcur
+          exact hcur
+      | cons a as =>
+        obtain ⟨h1, h2, h3⟩ := h.next_cons it a as hin hr
+        have e : R.next it = (some a, (R.next it).2) := by rw [← h1]
+        refine ⟨{ r with s := { r.s with cursors := r.s.cursors.set i (R.next it).2, buf := r.s.buf ++ f a } }, ?_, ⟨?_, ?_, g.agg, g.saved⟩⟩
+        · simp only [ParRun.step, hc]; rw [e]
+        · intro x hx
+          rcases List.mem_or_eq_of_mem_set hx with hx | hx
+          · exact g.inv x hx
+          · rw [hx]; exact h2
+        · show List.Perm (r.delivered ++ r.lost ++ (r.s.buf ++ f a) ++ futOf rem f (r.s.cursors.set i (R.next it).2)) E
+          rw [futOf_set (rem := rem) f r.s.cursors i it _ hc, h3]
+          have hcur := g.cur
+          rw [hsplit, hr, List.flatMap_cons] at hcur
+          refine List.Perm.trans ?_ hcur
+          have := perm_move (r.delivered ++ r.lost ++ r.s.buf) (futOf rem f (r.s.cursors.take i)) (f a)
+            (as.flatMap f) (futOf rem f (r.s.cursors.drop (i + 1)))
+          simpa only [List.append_assoc] using this
+  | deliver j =>
+    cases hb : r.s.buf[j]? with
+    | none => exact ⟨r, by simp [ParRun.step, hb], g⟩
+    | some b =>
+      refine ⟨{ r with s := { r.s with buf := r.s.buf.eraseIdx j, agg := add r.s.agg b },
+                       delivered := r.delivered ++ [b] }, by simp [ParRun.step, hb], ⟨g.inv, ?_, ?_, g.saved⟩⟩
+      · show List.Perm (r.delivered ++ [b] ++ r.lost ++ r.s.buf.eraseIdx j ++ futOf rem f r.s.cursors) E
+        refine List.Perm.trans ?_ g.cur
+        apply List.Perm.append_right
+        obtain ⟨hlt, hjb⟩ := List.getElem?_eq_some_iff.mp hb
+        have hbuf : r.s.buf = r.s.buf.take j ++ b :: r.s.buf.drop (j + 1) := by
+          rw [← hjb, ← List.drop_eq_getElem_cons hlt, List.take_append_drop]
+        rw [List.eraseIdx_eq_take_drop_succ]
+        conv => rhs; rw [hbuf]
+        simp only [List.append_assoc]
+        apply List.Perm.append_left
+        -- [b] ++ (L ++ (T ++ D)) ~ L ++ (T ++ b :: D)
+        have p1 : List.Perm ([b] ++ (r.lost ++ (r.s.buf.take j ++ r.s.buf.drop (j + 1))))
+            (r.lost ++ ([b] ++ (r.s.buf.take j ++ r.s.buf.drop (j + 1)))) := by
+          have := List.Perm.append_right (r.s.buf.take j ++ r.s.buf.drop (j + 1))
+            (List.perm_append_comm (l₁ := [b]) (l₂ := r.lost))
+          simpa only [List.append_assoc] using this
+        refine List.Perm.trans p1 (List.Perm.append_left _ ?_)
+        exact (List.perm_middle (a := b) (l₁ := r.s.buf.take j) (l₂ := r.s.buf.drop (j + 1))).symm
+      · show add r.s.agg b = (r.delivered ++ [b]).foldl add empty
+        rw [List.foldl_append, ← g.agg]; rfl
+  | ckpt =>
+    exact ⟨_, rfl, ⟨g.inv, g.cur, g.agg, ⟨r.s.cursors, rfl, g.inv, g.cur, g.agg⟩⟩⟩
+  | restore =>
+    obtain ⟨cs, hs, hi, hp, ha⟩ := g.saved
+    obtain ⟨cs', h1, h2, h3⟩ := restoreAll_spec h f cs hi
+    refine ⟨{ r with s := ⟨cs', [], r.saved.2⟩, delivered := r.savedDelivered,
+                     lost := r.savedLost ++ r.savedBuf }, ?_, ⟨h2, ?_, ha, ⟨cs, hs, hi, hp, ha⟩⟩⟩
+    · simp only [ParRun.step, hs, h1, bind, Except.bind]
+    · show List.Perm (r.savedDelivered ++ (r.savedLost ++ r.savedBuf) ++ [] ++ futOf rem f cs') E
+      rw [h3, List.append_nil, ← List.append_assoc]
+      exact hp
+
+theorem ParRun.Good.run (h : Refines R Inv rem) (f : α → List β) (add : S → β → S) (empty : S)
+    {E : List β} (ops : List ParOp) : ∀ {r : ParRun R β S}, ParRun.Good h f add empty E r →
+      ∃ r', ParRun.run R f add r ops = .ok r' ∧ ParRun.Good h f add empty E r' := by
+  induction ops with
+  | nil => intro r g; exact ⟨r, rfl, g⟩
+  | cons op ops ih =>
+    intro r g
+    obtain ⟨r1, h1, g1⟩ := g.step h f add empty op
+    obtain ⟨r2, h2, g2⟩ := ih g1
+    refine ⟨r2, ?_, g2⟩
+    simp only [ParRun.run, List.foldlM_cons, h1] at h2 ⊢
+    exact h2
+
+theorem ParRun.Good.init (h : Refines R Inv rem) (f : α → List β) (add : S → β → S) (empty : S)
+    (cs : List R.It) (hi : ∀ it ∈ cs, Inv it) :
+    ParRun.Good h f add empty (futOf rem f cs) (ParRun.init R empty cs) :=
+  ⟨hi, by simp [ParRun.init], rfl, ⟨cs, rfl, hi, by simp [ParRun.init], rfl⟩⟩
+
+end par
+
 end MlModel.Resume
